@@ -442,3 +442,77 @@ def c04_slices(R):
             "answers 255)",
             construct="_replacement: substitution may raise ClaripyZeroDivisionError",
         )
+
+
+@rule(
+    "C25.extract",
+    props=("C25",),
+    floor=2,
+    family="GRD",
+    desc="_balance_extract replaces inner[high:low] OP c by inner OP (zeros .. c .. zeros) only where the padded constant "
+    "is as wide as inner: a right-hand side without zeros below c needs the fact low == 0, one without zeros above c "
+    "needs the slice to reach the top bit; and the bits 'below the slice' that are tested for zero are inner[low-1:0]",
+)
+def c25_extract(R):
+    tree = R.tree
+    BALP = "claripy/backends/backend_vsa/balancer.py"
+    m = tree.mod(BALP)
+    raw = tree.func(BALP, "Balancer._balance_extract")
+    fn = util.resolve_locals(tree.func_inlined(BALP, "Balancer._balance_extract"))
+    # names of high / low / inner
+    hl = None
+    for st in walk_no_nested(raw):
+        if isinstance(st, ast.Assign) and isinstance(st.targets[0], ast.Tuple) and len(st.targets[0].elts) == 3 and ast.unparse(st.value).endswith(".args[0].args"):
+            hl = [e.id for e in st.targets[0].elts if isinstance(e, ast.Name)]
+    R.need(hl is not None and len(hl) == 3, "_balance_extract: `high, low, inner = truism.args[0].args` not found")
+    high, low, inner = hl
+    n = 0
+    for r in walk_no_nested(raw):
+        if not (isinstance(r, ast.Return) and isinstance(r.value, ast.Call) and (dotted(r.value.func) or "").split(".")[-1] == "Bool" and len(r.value.args) >= 2):
+            continue
+        pair = r.value.args[1]
+        if not (isinstance(pair, (ast.Tuple, ast.List)) and len(pair.elts) == 2):
+            continue
+        right = pair.elts[1]
+        if isinstance(right, ast.Name):
+            defs = [st.value for st in walk_no_nested(raw) if isinstance(st, ast.Assign) and any(isinstance(t, ast.Name) and t.id == right.id for t in st.targets)]
+            # the definition in the same block
+            blk = getattr(r, "_parent", None)
+            local = [st.value for st in getattr(blk, "body", []) if isinstance(st, ast.Assign) and any(isinstance(t, ast.Name) and t.id == right.id for t in st.targets)]
+            right = (local or defs or [right])[-1]
+        if not (isinstance(right, ast.Call) and (dotted(right.func) or "").split(".")[-1] == "Concat"):
+            continue
+        n += 1
+        parts = right.args
+        def zero(p_):
+            return isinstance(p_, ast.Call) and (dotted(p_.func) or "").split(".")[-1] == "BVV" and p_.args and isinstance(p_.args[0], ast.Constant) and p_.args[0].value == 0
+        lead, trail = zero(parts[0]), zero(parts[-1])
+        facts = [re.sub(r"\s+", " ", f) for f in guards.holds(r)]
+        low_ok = trail or f"{low} == 0" in facts or f"not {low} > 0" in facts or f"{low} <= 0" in facts
+        top_ok = lead or any(re.fullmatch(r"\w+ is None", f) for f in facts) or any(re.fullmatch(rf"{high} >= .+ - 1|not {high} < .+ - 1|{high} == .+ - 1", f) for f in facts)
+        R.check(
+            low_ok and top_ok,
+            m,
+            r,
+            "the padded constant is as wide as the operand",
+            f"_balance_extract returns `{norm(r.value)[:90]}` with the right-hand side `{norm(right)[:60]}`"
+            + ("" if low_ok else f" and no fact that `{low}` is 0 although nothing is padded below the constant")
+            + ("" if top_ok else " and no fact that the slice reaches the top bit although nothing is padded above the constant")
+            + ": the slice is compared as if it were the whole operand - LShR(x, 5)[2:1] <= 1 became LShR(x, 5) <= 1, and x = 64 "
+            "(slice value 2... the operand is 2) is cut off",
+            construct="_balance_extract: padded constant narrower than the operand",
+        )
+    R.need(n >= 2, f"_balance_extract: only {n} padded rewrites found")
+    # the low slice that is tested for zero
+    for st in walk_no_nested(raw):
+        if isinstance(st, ast.Assign) and isinstance(st.value, ast.Subscript) and isinstance(st.value.slice, ast.Slice) and ast.unparse(st.value.value) == inner:
+            lo_, up_ = st.value.slice.upper, st.value.slice.lower
+            if lo_ is not None and isinstance(lo_, ast.Constant) and lo_.value == 0:
+                R.check(
+                    ast.unparse(up_).replace(" ", "") == f"{low}-1",
+                    m,
+                    st,
+                    "the bits below the slice are inner[low - 1 : 0]",
+                    f"_balance_extract takes `{ast.unparse(st.value)}` for the bits below the slice: those are {inner}[{low} - 1 : 0]",
+                    construct="_balance_extract: low bits of the operand",
+                )
